@@ -121,7 +121,7 @@ COMPONENTS = [
     Component('preludes', optchild.flagged('C17', check),
               bulk=optchild.make_bulk('C17', ['table'], flags=('', '-bb'),
                                       preludes=('bases', 'subclass', 'partial',
-                                                'apifuzz'),
+                                                'apifuzz', 'traffic'),
                                       envs=({}, {'LANG': 'de_DE.UTF-8', 'LC_ALL': ''}, {'LC_ALL': 'pt_BR.UTF-8'},
                                             {'LANG': 'tr_TR.UTF-8', 'LC_MESSAGES': 'ja_JP.UTF-8'})),
               distinct_by_construction=True, exhaustive=True,
@@ -129,6 +129,8 @@ COMPONENTS = [
               describe='the same sweep in child interpreters after an application-style '
                        'prelude (accessors on the abstract bases first; application '
                        'subclasses; an abandoned first iteration of every class; the '
-                       'public helper functions called with 1200 distinct arguments), '
+                       'public helper functions of every module called with 1200 '
+                       'distinct integers and with frames of every class; ordinary '
+                       'traffic through every class and flag combination), '
                        'also with -bb and under foreign locale environments'),
 ]
